@@ -49,6 +49,19 @@ pub fn pool() -> Vec<Game> {
             }
             Game { tags, sans, result, final_fen: p.to_fen() }
         })
+        .collect::<Vec<Game>>()
+        .into_iter()
+        .chain(std::iter::once(()).map(|_| {
+            // tag values as Lichess really exports them: UTF-8 text (opening and event names)
+            let mut p = Pos::startpos();
+            let mut sans = Vec::new();
+            for u in ["d2d4", "g8f6", "c2c4", "g7g6", "g2g3", "d7d5"] {
+                let m = p.find_legal_uci(u).unwrap();
+                sans.push(san(&p, &m));
+                p = p.make(&m);
+            }
+            Game { tags: vec![("Event".to_string(), "Grünfeld ♞ Arena".to_string()), ("Result".to_string(), "1/2-1/2".to_string()), ("Opening".to_string(), "Neo-Grünfeld Defense: Réti".to_string())], sans, result: "1/2-1/2", final_fen: p.to_fen() }
+        }))
         .collect()
 }
 
@@ -361,7 +374,7 @@ fn check_doc(rep: &Reporter, pool: &[Game], d: &Doc, dev_bound: usize, max_chunk
 
 pub fn docs(tier: Tier) -> Vec<Doc> {
     let mut v = Vec::new();
-    let n = POOL.len();
+    let n = POOL.len() + 1;
     let endings: &[&'static str] = &["\n", "", "\n\n"];
     for comments in [false, true] {
         for &ending in endings {
